@@ -65,7 +65,7 @@ let resp_for (k : int) (act : string) : cresp option =
                rs_fields = [ (bs "tok", bs ("t" ^ ks)); (bs "k", bs ("k" ^ ks)) ];
                rs_hdr = Some (bs ("h" ^ ks)); rs_okbody = true } in
   if act = "" then Some dflt
-  else if act = "g" then None
+  else if act = "g" || act = "t" then None
   else if act = "n" then Some { dflt with rs_json = false; rs_fields = []; rs_okbody = false }
   else if act = "m" then Some { dflt with rs_fields = [ (bs "other", bs ("x" ^ ks)) ]; rs_okbody = false }
   else if act = "h" then Some { dflt with rs_hdr = None }
@@ -157,7 +157,7 @@ let spec_ring_ok sc =
   weights_ok_b sc && (let ns = List.map (fun s -> s.sc_name) sc in List.length (uniq ns) = List.length ns)
 
 (* the executable specification order_stop_b on one observed shot "[name exp=.. sends=.. samples=.. pause=..]" *)
-let obs_shot_ok (sname : string) (steps : (creq * z) list) (chunk : string) : bool =
+let obs_shot_ok (sname : string) (steps : (creq * z) list) (chunk : string) : string =
   let fields = String.split_on_char ' ' chunk in
   let get k = List.fold_left (fun acc f ->
       let kl = String.length k in
@@ -179,8 +179,10 @@ let obs_shot_ok (sname : string) (steps : (creq * z) list) (chunk : string) : bo
                 then String.sub t 0 (String.length t - String.length suffix) else if failed then "?" ^ t else t in
               (bs t, not failed)
           | _ -> (bs "?", false)) (split_on ',' samples) in
-      order_stop_b (c_step_obs steps) ids smp
-  | _ -> false
+      if order_stop_b (c_step_obs steps) ids smp then ""
+      else "order/stop: samples and requests are not one per step up to the first failing step"
+  | Some _, Some _, Some _ -> "pause: the next request (or the end of the shot) came sooner than the pause written for the step"
+  | _ -> "shot did not complete (panic or hang)"
 
 let split_shots (obs : string) : string list =
   (* "ok [a] [b]" -> ["a"; "b"] *)
@@ -242,7 +244,7 @@ let predict (c : string) (obs : string) : string * string * bool =
        | Some (nm, Some n, Some s) ->
            (* the documented form with well-formed name and literals: C15_parse applies *)
            let w = Printf.sprintf "ok %s %s %s" (hex_of_bytes nm) (ZT.to_string n) (ZT.to_string s) in
-           (p, verdict (obs = w) ("documented form must parse to " ^ w), true)
+           (p, verdict (obs = w) "a documented form does not parse to the name, multiplicity and pause that were written", true)
        | _ -> (p, "ok", false))
   | ["gcd"; a; b] ->
       let za = ZT.of_string a and zb = ZT.of_string b in
@@ -302,10 +304,11 @@ let predict (c : string) (obs : string) : string * string * bool =
              let specs = List.mapi spec_of rs in
              let w = "ok " ^ String.concat " " (List.map2 (fun (sname, steps) r -> print_shot_spec names sname steps r) specs rs) in
              let chunks = split_shots obs in
-             let structural = List.length chunks = List.length rs
-                              && List.for_all2 (fun (sname, steps) c -> obs_shot_ok sname steps c) specs chunks in
+             let structural =
+               if List.length chunks <> List.length rs then "number of shots differs"
+               else List.fold_left2 (fun acc (sname, steps) c -> if acc <> "" then acc else obs_shot_ok sname steps c) "" specs chunks in
              let failed = List.exists (fun r -> r.sr_out <> Done) rs in
-             let v = if not structural then "BAD:order/stop: samples and requests are not one per step up to the first failing step"
+             let v = if structural <> "" then "BAD:" ^ structural
                else if obs <> w then "BAD:shot log differs from the specified execution (variables visible to a template, scenario order or expansion)"
                else "ok" in
              (p, v, failed || List.length rs > 1)
@@ -331,9 +334,11 @@ let predict (c : string) (obs : string) : string * string * bool =
            let names = List.sort compare (Hashtbl.fold (fun k _ acc -> k :: acc) rows []) in
            let p = Printf.sprintf "ok samples=%d failed=0 %s" !nsamples
                (String.concat " " (List.map (fun k -> k ^ "=" ^ String.concat "," (List.sort compare (Hashtbl.find rows k))) names)) in
-           (p, verdict (obs = p) "rows handed out by [next] are not the consecutive rows round-robin", true)
+           let why = if obs = "crash" then "instances crashed (fatal runtime error) while shooting concurrently"
+             else "rows handed out by [next] are not the consecutive rows round-robin" in
+           (p, verdict (obs = p) why, true)
        | f -> (build_fail f, "ok", false))
-  | ["iter"; g; per; len] ->
+  | ["iter"; g; per; len; _rounds] ->
       let g = int_of_string g and per = int_of_string per and len = int_of_string len in
       let sg = bs ".source.users[next]" in
       let tr = List.concat_map (fun t -> List.init per (fun _ -> (nat_of_int t, sg))) (seq 0 g) in
@@ -344,7 +349,7 @@ let predict (c : string) (obs : string) : string * string * bool =
           match next_row (nat_of_int len) v with
           | NxRow i -> let i = int_of_nat i in counts.(i) <- counts.(i) + 1
           | NxPanic -> bad := true) out;
-      let p = Printf.sprintf "1 1 errs=0 rows=%s" (String.concat "," (Array.to_list (Array.map string_of_int counts))) in
+      let p = Printf.sprintf "1 1 startups=1 errs=0 rows=%s" (String.concat "," (Array.to_list (Array.map string_of_int counts))) in
       let p = if !bad then "model-panic" else p in
       (p, verdict (obs = p) "counter values are not 0..E-1 / rows not round-robin", g > 1)
   | _ -> ("unknown-case", "BAD:unknown-case", false)
